@@ -35,13 +35,22 @@ theorem group_fold (k : Nat) (hk : k = 1 ∨ k = 3 ∨ k = 4) (p : Params) : ∀
     simp only [List.map_cons, foldlM_cons', groupStep_item k hk, h1, Option.map_some, Option.bind_some, ih]
     simp
 
-theorem stringtable_fields_wf (strs : List Bytes) (h : ∀ s ∈ strs, s.length ≤ 1024) : ∀ f ∈ strs.map (fBytes 1), f.WF := by
+/-- a string `decode_stringtable` accepts (and an OSM string as the C++ API can hold it): at most
+    `max_osm_string_length` = 1024 bytes and no embedded NUL byte (the reader rejects NUL since
+    repair da64936; `const char*` strings of the builders cannot contain one) -/
+def StrOk (s : Bytes) : Prop := s.length ≤ 1024 ∧ s.contains 0 = false
+
+instance (s : Bytes) : Decidable (StrOk s) := by unfold StrOk; infer_instance
+
+theorem strOk_nil : StrOk [] := ⟨by decide, rfl⟩
+
+theorem stringtable_fields_wf (strs : List Bytes) (h : ∀ s ∈ strs, StrOk s) : ∀ f ∈ strs.map (fBytes 1), f.WF := by
   intro f hf
   obtain ⟨s, hs, rfl⟩ := List.mem_map.mp hf
-  exact wf_bytes 1 s (by decide) (by decide) (by have := h s hs; simp only [Nat.reducePow]; omega)
+  exact wf_bytes 1 s (by decide) (by decide) (by have := (h s hs).1; simp only [Nat.reducePow]; omega)
 
 /-- `decode_stringtable` returns the strings the writer put in -/
-theorem decodeStringTable_enc (strs : List Bytes) (h : ∀ s ∈ strs, s.length ≤ 1024) :
+theorem decodeStringTable_enc (strs : List Bytes) (h : ∀ s ∈ strs, StrOk s) :
     decodeStringTable [] (encodeFields (strs.map (fBytes 1))) = some strs := by
   unfold decodeStringTable withFields
   rw [readFields_encodeFields _ (stringtable_fields_wf strs h)]
@@ -51,13 +60,16 @@ theorem decodeStringTable_enc (strs : List Bytes) (h : ∀ s ∈ strs, s.length 
     rw [List.map_map]
     have : ((fun x => x.payload) ∘ fBytes 1) = id := by funext x; rfl
     rw [this, List.map_id]
-  have hany : (strs.any fun s => decide (s.length > maxOsmStringLength)) = false := by
-    rw [List.any_eq_false]; intro s hs; have := h s hs; simp [maxOsmStringLength]; omega
-  simp [hf, hm, hany]
+  have hany : (strs.any fun s => decide (s.length > maxOsmStringLength) || s.contains 0) = false := by
+    rw [List.any_eq_false]; intro s hs; have := (h s hs).1; have hn := (h s hs).2
+    have hd : decide (s.length > maxOsmStringLength) = false := decide_eq_false (by unfold maxOsmStringLength; omega)
+    rw [hd, hn]; decide
+  simp only [hf, hm, hany]
+  rfl
 
 /-- both passes of the block decoder over "string table, one group of kind k" -/
 theorem block_decode (k : Nat) (hk : k = 1 ∨ k = 3 ∨ k = 4) (strs : List Bytes) (pls : List Bytes) (obs : List Object)
-    (hs : ∀ s ∈ strs, s.length ≤ 1024) (hitems : ItemsDec k { strings := strs } pls obs)
+    (hs : ∀ s ∈ strs, StrOk s) (hitems : ItemsDec k { strings := strs } pls obs)
     (hpl : ∀ pl ∈ pls, pl.length < 2 ^ 32) :
     decodeBlock {} [fBytes 1 (encodeFields (strs.map (fBytes 1))), fBytes 2 (encodeFields (pls.map (fBytes k)))] = some obs := by
   have hwf : ∀ f ∈ pls.map (fBytes k), f.WF := by
